@@ -217,6 +217,16 @@ type objRef struct {
 	nameConverted bool
 }
 
+// primitiveThis returns v if it is not an object: a reference whose base is a primitive keeps the primitive
+// as the receiver, so that an assignment through it fails (throws in strict code) instead of silently
+// creating a property on the temporary wrapper object.
+func primitiveThis(v Value) Value {
+	if _, ok := v.(*Object); ok {
+		return nil
+	}
+	return v
+}
+
 func (r *objRef) getKey() Value {
 	if !r.nameConverted {
 		r.name = toPropertyKey(r.name)
@@ -1896,6 +1906,7 @@ func (_getElemRef) exec(vm *vm) {
 	vm.refStack = append(vm.refStack, &objRef{
 		base: obj,
 		name: propName,
+		this: primitiveThis(vm.stack[vm.sp-2]),
 	})
 	vm.sp -= 2
 	vm.pc++
@@ -1927,6 +1938,7 @@ func (_getElemRefStrict) exec(vm *vm) {
 	vm.refStack = append(vm.refStack, &objRef{
 		base:   obj,
 		name:   propName,
+		this:   primitiveThis(vm.stack[vm.sp-2]),
 		strict: true,
 	})
 	vm.sp -= 2
@@ -2045,8 +2057,12 @@ type _setElemStrict struct{}
 var setElemStrict _setElemStrict
 
 func (_setElemStrict) exec(vm *vm) {
-	propName := toPropertyKey(vm.stack[vm.sp-2])
 	receiver := vm.stack[vm.sp-3]
+	if receiver == _undefined || receiver == _null {
+		// the base is checked before the key is converted
+		receiver.ToObject(vm.r)
+	}
+	propName := toPropertyKey(vm.stack[vm.sp-2])
 	val := vm.stack[vm.sp-1]
 	if receiverObj, ok := receiver.(*Object); ok {
 		receiverObj.setOwn(propName, val, true)
@@ -2107,8 +2123,12 @@ type _setElemStrictP struct{}
 var setElemStrictP _setElemStrictP
 
 func (_setElemStrictP) exec(vm *vm) {
-	propName := toPropertyKey(vm.stack[vm.sp-2])
 	receiver := vm.stack[vm.sp-3]
+	if receiver == _undefined || receiver == _null {
+		// the base is checked before the key is converted
+		receiver.ToObject(vm.r)
+	}
+	propName := toPropertyKey(vm.stack[vm.sp-2])
 	val := vm.stack[vm.sp-1]
 	if receiverObj, ok := receiver.(*Object); ok {
 		receiverObj.setOwn(propName, val, true)
@@ -2217,6 +2237,7 @@ func (p getPropRef) exec(vm *vm) {
 	vm.refStack = append(vm.refStack, &objStrRef{
 		base: vm.stack[vm.sp-1].ToObject(vm.r),
 		name: unistring.String(p),
+		this: primitiveThis(vm.stack[vm.sp-1]),
 	})
 	vm.sp--
 	vm.pc++
@@ -2240,6 +2261,7 @@ func (p getPropRefStrict) exec(vm *vm) {
 	vm.refStack = append(vm.refStack, &objStrRef{
 		base:   vm.stack[vm.sp-1].ToObject(vm.r),
 		name:   unistring.String(p),
+		this:   primitiveThis(vm.stack[vm.sp-1]),
 		strict: true,
 	})
 	vm.sp--
